@@ -139,6 +139,19 @@ CHECKS = {
              "scipy's multivariate_normal.rvs supplies Z; np.linspace's float front end and np.round (n_affected) are oracles recomputed with the library's expressions and checked "
              "against positions_ok. Calls without any anomaly are outside the domain (p is derived from the first mean).",
         ref="DESIGN.md section 4 / C18"),
+    "C12": dict(
+        technique="Coq proof (kernel symmetries over Reals on regenerated kernels; exact extensionality / permutation / reversal theorems for every detector model) + metamorphic correspondence runs",
+        text="Theorems in coq/Properties/C12.v. Kernels regenerated from /repo: shift invariance of the optimal-parameter squared-error and Gaussian costs and of CUSUM; Gaussian cost "
+             "changes by n ln a^2 under scaling so Gaussian change and local anomaly scores are scale invariant (above the variance floor); time reversal maps cost, saving, CUSUM "
+             "and change-score values to those of the mirrored cuts; per-column outputs commute with column permutations and their sum is permutation invariant. Detector models "
+             "(exact, any score function): PELT, seeded / circular binary segmentation, moving window and CAPA are functions of the aggregated score values only; the penalised saving "
+             "is invariant under permutation of the column savings, CAPA/MVCAPA output is unchanged and MVCAPA's affected columns are permuted with the data (tie-free); PELT's optimal "
+             "penalised cost is invariant under time reversal; moving-window scores at t map to n-t. Tie: translator for kernels; metamorphic pairs of runs of every real scorer "
+             "(tolerance, exact permutation of per-column outputs) and detector (scores with tolerance, discrete outputs outside the rounding margin), and exact permuted table "
+             "costs / savings through PELT, CAPA, MVCAPA.",
+        note=BASE_TB + RT + "The step from 'equal score tables' to 'equal detections' is the extensionality theorems; the step from kernel identities over R to binary64 outputs "
+             "is outside the theorems (margin rule in the metamorphic run). Multivariate Gaussian symmetries are tested, not proved.",
+        ref="DESIGN.md section 4 / C12"),
     "C13": dict(
         technique="Coq proof (characterisation of the accepted cuts) + exhaustive small-box correspondence against the real evaluate",
         text="Theorems in coq/Properties/C13.v: the model of evaluate's validation returns scores iff the argument is an integer array of "
